@@ -330,10 +330,18 @@ func runSeqMode(k kase, detailed bool) (o outcome) {
 		srcSnap := proto.Clone(srcNorm)
 		var dst interface{}
 		dstIdx := -1
+		dstRep := st.DstRep
 		if st.Op == "Copy" {
 			dst = k.seqDst(st, objs)
 			if st.Dst == "obj" {
-				dstIdx = st.DstObj
+				dstIdx, dstRep = st.DstObj, reps[st.DstObj]
+			}
+		}
+		var srcDynSnap *dynamic.Message // (oracle.go: equality as dynamic messages, where it is demanded)
+		if sd, ok := src.(*dynamic.Message); ok && st.Dst != "other-type" && demandDynEqual(st.Op, reps[st.Src], dstRep) {
+			if srcDynSnap, err = dynSnapshot(sd); err != nil {
+				o.Internal = where.String() + ": cannot take a snapshot of the source: " + err.Error()
+				return
 			}
 		}
 		cur = i
@@ -417,6 +425,12 @@ func runSeqMode(k kase, detailed bool) (o outcome) {
 			}
 			o.Observed = clause
 			add(clause, fmt.Sprintf("%s: result is not proto.Equal to the source as it is at the time of the operation: result %s, source %s", where, short(resCanon), short(srcCanon)))
+		} else if what := dynEqualFinding(srcDynSnap, res); what != "" {
+			o.Observed = "not-equal:as-dynamic"
+			add("not-equal:as-dynamic", fmt.Sprintf("%s: %s", where, what))
+		}
+		if what := dynEqualFinding(srcDynSnap, src); what != "" {
+			add("source-changed:as-dynamic", fmt.Sprintf("%s changed what the source recognises: %s", where, strings.Replace(what, "the result", "the source afterwards", 2)))
 		}
 		if after, cerr := stamp(src); cerr != nil || !bytes.Equal(after, srcCanon) {
 			add("source-changed", fmt.Sprintf("%s changed the source: before %s after %s (%v)", where, short(srcCanon), short(after), cerr))
